@@ -256,6 +256,28 @@ pub mod shim {
     pub assume_specification<T: core::cmp::Ord> [ core::cmp::max::<T> ] (a: T, b: T) -> (r: T)
         ensures <T as vstd::std_specs::cmp::OrdSpec>::obeys_cmp_spec() ==> r == (if vstd::std_specs::cmp::OrdSpec::cmp_spec(&b, &a) == core::cmp::Ordering::Less { a } else { b });
 
+    // std Option/Result combinators without a vstd specification (semantics as documented in std; closures enter
+    // through their own requires/ensures, which rule R32 writes for expression closures and Verus checks)
+    pub assume_specification<T, F: FnOnce(&T) -> bool>[ Option::<T>::filter::<F> ](o: Option<T>, f: F) -> (r: Option<T>)
+        requires o.is_some() ==> f.requires((&o.unwrap(),)),
+        ensures
+            o.is_none() ==> r.is_none(),
+            o.is_some() ==> (r == o && f.ensures((&o.unwrap(),), true)) || (r.is_none() && f.ensures((&o.unwrap(),), false));
+    pub assume_specification<T, U, F: FnOnce(T) -> U>[ Option::<T>::map_or::<U, F> ](o: Option<T>, default: U, f: F) -> (r: U)
+        requires o.is_some() ==> f.requires((o.unwrap(),)),
+        ensures o.is_none() ==> r == default, o.is_some() ==> f.ensures((o.unwrap(),), r);
+    pub assume_specification<T>[ Option::<T>::or ](o: Option<T>, b: Option<T>) -> (r: Option<T>)
+        ensures r == (if o.is_some() { o } else { b });
+    pub assume_specification<T, F: FnOnce() -> Option<T>>[ Option::<T>::or_else::<F> ](o: Option<T>, f: F) -> (r: Option<T>)
+        requires o.is_none() ==> f.requires(()),
+        ensures o.is_some() ==> r == o, o.is_none() ==> f.ensures((), r);
+    pub assume_specification<T>[ Option::<T>::xor ](o: Option<T>, b: Option<T>) -> (r: Option<T>)
+        ensures r == (if o.is_some() && b.is_none() { o } else if o.is_none() && b.is_some() { b } else { None });
+    pub assume_specification<T, U>[ Option::<T>::and::<U> ](o: Option<T>, b: Option<U>) -> (r: Option<U>)
+        ensures r == (if o.is_some() { b } else { None });
+    pub assume_specification<T, E>[ Result::<T, E>::unwrap_or ](o: Result<T, E>, d: T) -> (r: T)
+        ensures r == (match o { Ok(v) => v, Err(_) => d });
+
     // ---------------------------------------------------------------- rule R8: format!/Display
     /// decimal rendering of an unsigned integer (Display for usize/u16/u32)
     pub open spec fn dec(n: nat) -> Seq<u8>
